@@ -384,7 +384,6 @@ func selfCases() []selfCase {
 	return cs
 }
 
-
 // selfConformance: outcomes(native Go) ⊆ outcomes(vrt, exhaustive) ⊆ Allowed for every
 // micro-program of package selfprog (same source, compiled unchanged and rewritten).
 func selfConformance(c *Ctx) {
@@ -467,7 +466,6 @@ func keysOf(m map[string]bool) []string {
 	sort.Strings(ks)
 	return ks
 }
-
 
 // selfCacheSoundness: the happens-before state cache must not change what is found.  Real library
 // scenarios of several harness families are explored twice, with and without the cache; the sets of
